@@ -338,3 +338,103 @@ def bytes_at(io, n):             # noqa: F811
 
 def str_at(io, n):               # noqa: F811
     return bytes_at(io, n).decode("utf8", "ignore")
+
+
+# --------------------------------------------------------------- raw pointers (speedups.pyx) ---
+class Ptr:
+    """char* into a byte region (list of ints); immutable, arithmetic returns a new pointer.  Forming a pointer is
+    never an obligation, dereferencing is."""
+
+    def __init__(self, region, off=0):
+        self.region = region.items if isinstance(region, MV) else (region.data if isinstance(region, NewBytes) else region)
+        self.off = off
+
+    def __add__(self, n):
+        return Ptr(self.region, self.off + n)
+
+    def __sub__(self, other):
+        if isinstance(other, Ptr):
+            return self.off - other.off
+        return Ptr(self.region, self.off - other)
+
+    def check(self, n, what):
+        if n < 0 or self.off < 0 or self.off + n > len(self.region):
+            raise CapacityViolation("%s of %r bytes at offset %r of a buffer of %r" % (what, n, self.off, len(self.region)))
+
+
+def load_i32(p):
+    p.check(4, "int load")
+    v = 0
+    for k in range(4):
+        v = v + p.region[p.off + k] * (1 << (8 * k))
+    return v - (1 << 32) if v >= (1 << 31) else v
+
+
+def store_i32(p, v):
+    p.check(4, "int store")
+    v = wrap(v, 32, False)
+    for k in range(4):
+        p.region[p.off + k] = (v // (1 << (8 * k))) % 256
+
+
+def bytes_at_ptr(p, n):
+    if n < 0:
+        raise SystemError("Negative size passed to PyBytes_FromStringAndSize")
+    p.check(n, "bytes read")
+    return list(p.region[p.off:p.off + n])
+
+
+def str_at_ptr(p, n):
+    p.check(n, "string read")
+    return ("str", list(p.region[p.off:p.off + n]))
+
+
+class NewBytes:
+    """PyBytes_FromStringAndSize(NULL, n): uninitialised bytes object of n bytes"""
+
+    def __init__(self, n):
+        if n < 0:
+            raise SystemError("Negative size passed to PyBytes_FromStringAndSize")
+        self.data = ["uninit"] * n
+
+
+def new_bytes(n):
+    return NewBytes(n)
+
+
+def memcpy_ptr(dst, src, n):
+    if n < 0:
+        raise CapacityViolation("memcpy with negative length %r" % (n,))
+    dst.check(n, "memcpy store")
+    if len(src) < n:
+        raise CapacityViolation("memcpy reads %r bytes from a value of %r" % (n, len(src)))
+    for k in range(n):
+        dst.region[dst.off + k] = src[k]
+
+
+def is_bytes(v):
+    return isinstance(v, list)          # harness values: a bytes object is a list of byte values
+
+
+class ObjArr:
+    """np.empty(n, dtype=object) with the index obligation (boundscheck is off in the C)"""
+
+    def __init__(self, n):
+        self.items = [None] * n
+        self.shape = (n,)
+
+    def __setitem__(self, i, v):
+        if not (0 <= i < len(self.items)):
+            raise CapacityViolation("object array store %r out of range %r" % (i, len(self.items)))
+        self.items[i] = v
+
+    def __getitem__(self, i):
+        if not (0 <= i < len(self.items)):
+            raise CapacityViolation("object array load %r out of range %r" % (i, len(self.items)))
+        return self.items[i]
+
+
+class NPObj:
+    @staticmethod
+    def empty(n, dtype=None):
+        return ObjArr(n)
